@@ -329,6 +329,14 @@ func (d *Data) GetVoxels(v dvid.VersionID, vox *Voxels, roiname dvid.InstanceNam
 	timedLog := dvid.NewTimeLog()
 	defer timedLog.Infof("GetVoxels %s", vox)
 
+	// Voxels of blocks that were never written read as the background value, as in BackgroundBlock().
+	if d.Background != 0 && d.Values.BytesPerElement() == 1 {
+		data := vox.Data()
+		for i := range data {
+			data[i] = d.Background
+		}
+	}
+
 	store, err := datastore.GetOrderedKeyValueDB(d)
 	if err != nil {
 		return fmt.Errorf("Data type imageblk had error initializing store: %v\n", err)
